@@ -26,7 +26,7 @@ EXPLANATION = (
     'behind exactly "value < 0" (or a missing storage).')
 EXPLANATION += ' C07.R2 accepts an explicit comparator only when it compares (boundary, value) in double without converting the boundary. The shared rule C06.R1 (Aggregate while holding the table lock) is evaluated for the histogram path.'
 EXPLANATION += " C07.R1 min/max obligations are semantic: a write is either the selection min(old, value) (std::min/max or the equivalent conditional expression) or a plain store of the value behind the edge on which the value beats the stored extreme, and a path that writes nothing must have passed the opposite edge. C07.R6 is a decision table: with the storage pointer pinned non-null and every comparison of the value with zero pinned to 'not negative', no path avoids the forwarding call (named booleans, else-chains and conditional expressions are folded by the path explorer)."
-ROUND2_EXPLANATION = (' Shared C06.R9: folding collection intervals accumulates.')
+ROUND2_EXPLANATION = (' C07.R7: Merge / Diff hand (this point, argument's point, result) to HistogramMerge / HistogramDiff; every field difference of HistogramDiff is next - current; Aggregate adds the recorded value itself to sum_ (no narrowing conversion). Shared C06.R9: folding collection intervals accumulates.')
 EXPLANATION += ROUND2_EXPLANATION
 NOT_DECIDED = 'numeric equality for all value multisets (floating-point sums), equality of merged and jointly recorded points.'
 
@@ -474,12 +474,98 @@ def rule_r6(ck, prog, rule='C07.R6'):
     return cnt
 
 
+def rule_r7(ck, prog, rule='C07.R7'):
+    """orientation of combining two histogram points: Merge / Diff of the aggregation hand (this point, argument's point, result) to
+    HistogramMerge / HistogramDiff in that order, and HistogramDiff subtracts the current point from the next one (a swapped pair
+    gives negative - wrapped - bucket counts for every delta reader of the cumulative state).  Also: Aggregate adds the recorded
+    value itself to the sum (no narrowing conversion on the way)."""
+    from .common import subtree_through_locals
+    cnt = 0
+    for cls, ty in CLASSES:
+        rec = prog.record(cls)
+        for name, helper in (('Merge', 'HistogramMerge'), ('Diff', 'HistogramDiff')):
+            fs = [x for x in prog.funcs.values() if x.cls == rec['qn'] and x.name == name and x.blocks]
+            if not fs:
+                continue
+            f = fs[0]
+            calls = [n for n in f.nodes if n['k'] == 'call' and strip_targs(n.get('c', '')).rsplit('::', 1)[-1] == helper and len(n.get('args', [])) >= 2]
+            cnt += 1
+            site = 'orientation:%s::%s' % (cls.rsplit('::', 1)[-1], name)
+            if len(calls) != 1:
+                ck.inconclusive(rule, f, site, None, 'the call of %s was not found' % helper)
+                continue
+            other = f.params[0]['id']
+
+            def side(idx):
+                sub = [f.nodes[i] for i in list(subtree_through_locals(f, idx)) + [idx]]
+                from_arg = any(n['k'] == 'ref' and n.get('id') == other for n in sub)
+                tp = [n for n in sub if n['k'] == 'call' and strip_targs(n.get('c', '')).endswith('::ToPoint')]
+                from_this = any(n.get('obj') is None or strip_casts(f, n['obj'])['k'] == 'this' for n in tp) or any(n['k'] == 'member' and access_path(f, n['i'])[:2] == ('this', 'point_data_') for n in sub)
+                return 'arg' if from_arg else ('this' if from_this else '?')
+            got = [side(calls[0]['args'][0]), side(calls[0]['args'][1])]
+            if '?' in got:
+                ck.inconclusive(rule, f, site, calls[0], 'the operands handed to %s were not resolved' % helper)
+            else:
+                ck.verdict(got == ['this', 'arg'], rule, f, site, calls[0], '%s(this point, argument\'s point, result)' % helper if got == ['this', 'arg'] else
+                           '%s::%s hands (%s, %s) to %s, which expects (this point, argument\'s point): %s' % (
+                               cls.rsplit('::', 1)[-1], name, got[0], got[1], helper,
+                               'the difference is taken the wrong way round (bucket counts wrap below zero)' if name == 'Diff' else 'min/max flags and boundaries are taken from the wrong side'))
+    for f in sorted(prog.functions('sdk::metrics::HistogramDiff'), key=lambda x: x.key)[:1]:
+        cur, nxt = f.params[0]['id'], f.params[1]['id']
+        subs = [n for n in f.nodes if n['k'] == 'binop' and n['op'] == '-' and ('counts_' in str([f.nodes[i].get('name') for i in f.subtree(n['i'])]) or
+                                                                           'count_' in str([f.nodes[i].get('name') for i in f.subtree(n['i'])]) or
+                                                                           'sum_' in str([f.nodes[i].get('name') for i in f.subtree(n['i'])]))]
+        cnt += 1
+        bad = None
+        for n in subs:
+            l = {f.nodes[i].get('id') for i in list(f.subtree(n['lhs'])) + [n['lhs']] if f.nodes[i]['k'] == 'ref'}
+            r = {f.nodes[i].get('id') for i in list(f.subtree(n['rhs'])) + [n['rhs']] if f.nodes[i]['k'] == 'ref'}
+            if not (nxt in l and cur in r and cur not in l and nxt not in r):
+                bad = n
+        if not subs:
+            ck.inconclusive(rule, f, 'diff-is-next-minus-current', None, 'no subtraction of point fields found in HistogramDiff')
+        else:
+            ck.verdict(bad is None, rule, f, 'diff-is-next-minus-current', bad or subs[0], 'every field difference is next - current (%d subtractions)' % len(subs) if bad is None else
+                       'HistogramDiff subtracts the wrong way round: the delta of a growing histogram is negative (unsigned bucket counts wrap)')
+    for cls, ty in CLASSES:
+        rec = prog.record(cls)
+        for f in [x for x in prog.funcs.values() if x.cls == rec['qn'] and x.name == 'Aggregate' and x.blocks and x.params and x.params[0]['t'] == ty]:
+            val = f.params[0]['id']
+            sums = [n for n in f.nodes if n['k'] in ('binop', 'call') and ((n['k'] == 'binop' and n['op'] in ('=', '+=')) or n.get('op') in ('=', '+=')) and
+                    any(f.nodes[i]['k'] == 'member' and f.nodes[i].get('name') == 'sum_' for i in list(f.subtree(n.get('lhs', n.get('obj')) if n.get('lhs', n.get('obj')) is not None else n['i'])))]
+            cnt += 1
+            if not sums:
+                ck.inconclusive(rule, f, 'sum-adds-the-value:%s' % ty, None, 'the update of sum_ was not found')
+                continue
+            rhs = sums[0]['rhs'] if sums[0]['k'] == 'binop' else (sums[0]['args'][0] if sums[0].get('args') else None)
+            narrowed = None
+            uses = False
+            for i in (list(f.subtree(rhs)) + [rhs]) if rhs is not None else []:
+                n = f.nodes[i]
+                if n['k'] == 'ref' and n.get('id') == val:
+                    uses = True
+                if n['k'] == 'cast' and any(f.nodes[j]['k'] == 'ref' and f.nodes[j].get('id') == val for j in list(f.subtree(n['e'])) + [n['e']]):
+                    to = (n.get('to') or n.get('t') or '')
+                    src = f.nodes[n['e']].get('t') or ''
+                    if ty == 'double' and to not in ('double', 'const double', 'long double') and 'variant' not in to and 'double' in src:
+                        narrowed = (n, to)
+                    if ty == 'long' and to in ('int', 'short', 'char', 'unsigned int', 'float'):
+                        narrowed = (n, to)
+            ok = uses and narrowed is None
+            ck.verdict(ok, rule, f, 'sum-adds-the-value:%s' % ty, narrowed[0] if narrowed else sums[0],
+                       'sum_ grows by the recorded value itself' if ok else
+                       ('the value is converted to %s before it is added to the sum: fractions (or high bits) of every recorded value are lost' % narrowed[1] if narrowed else
+                        'the update of sum_ does not use the recorded value'))
+    return cnt
+
+
 def run(ck, prog):
     ck.doc('C07.R1', 'Aggregate: locked; count, sum and exactly one bucket updated on every path; min/max under the flag', 18)
     ck.doc('C07.R2', 'BucketBinarySearch is lower_bound over [begin,end) measured from begin (inclusive upper boundary)', 2)
     ck.doc('C07.R3', 'initial min/max are the top/bottom of the value order', 4)
     ck.doc('C07.R4', 'HistogramMerge shape; counts sized boundaries.size()+1', 10)
     ck.doc('C07.R5', 'the aggregation config reaches every CreateAggregation call of a storage', 2)
+    ck.doc('C07.R7', 'orientation of Merge / Diff (this point, argument\'s point), HistogramDiff is next - current, Aggregate adds the value itself to the sum', 5)
     ck.doc('C07.R6', 'histogram instruments drop a value only behind value < 0 / missing storage', 4)
     ck.doc('C06.R1', '(shared rule, see C06) the storage aggregates into the looked-up histogram while holding the table lock', 4)
     ck.doc('C08.R2', '(shared rule, see C08) one point per attribute set: every constructor / mutation of the series key ends in UpdateHash()', 5)
@@ -494,6 +580,7 @@ def run(ck, prog):
     rule_r4(ck, prog)
     rule_r5(ck, prog)
     rule_r6(ck, prog)
+    rule_r7(ck, prog)
     from . import c06, c08
     c06.rule_r1_sync(ck, prog)
     c08.rule_r2(ck, prog)
